@@ -8,6 +8,12 @@ COMMON_TRUSTED = [
 ]
 
 CONF = {
+    "C11": {
+        "n": {"quick": 2400, "thorough": 16000},
+        "shard": 1200,
+        "trusted_base": ["the token-level scan equals the Go code's byte-level scan for non-overlapping delimiter triples and text free of delimiter bytes (checked per triple by the correspondence)"],
+        "assumptions": ["delimiter triples from a fixed set of 5 non-overlapping triples; text alphabet disjoint from delimiter bytes", "termination is proved only for pure-text tables and separator-free inputs (C11_terminates_partial); beyond that it is searched (exhaustive small scope + timeout), not proved"],
+    },
     "C09": {
         "n": {"quick": 700, "thorough": 10000},
         "shard": 350,
